@@ -21,6 +21,7 @@ import (
 	"github.com/bnb-chain/tss-lib/v2/tss"
 	"pgregory.net/rapid"
 
+	"verif/harness/ev"
 	"verif/harness/ref"
 	"verif/harness/sim"
 )
@@ -28,27 +29,47 @@ import (
 type protoRun struct {
 	Proto            string // ecdsa-keygen | ecdsa-signing | ecdsa-resharing | eddsa-keygen | eddsa-signing | eddsa-resharing
 	Key              keyChoice
-	Keys             []H   `json:",omitempty"` // keygen: party keys (drawn order)
-	Members          []int `json:",omitempty"` // signing: signers; resharing: participating old members (party indices, drawn order)
-	Msg              H     `json:",omitempty"`
-	NewKeys          []H   `json:",omitempty"` // resharing: new committee party keys
-	NewT             int   `json:",omitempty"`
-	Proofs           bool  `json:",omitempty"` // ECDSA resharing: mod/fac proofs on (production path)
-	BadXi            []int `json:",omitempty"` // positions in Members whose party runs with a wrong secret share (Xi+1)
-	WeakPre          []int `json:",omitempty"` // ECDSA keygen / resharing: sorted party indices (new-committee indices) that bring under-sized parameters
-	WeakBits         int   `json:",omitempty"`
-	OtherGlobalCurve bool  `json:",omitempty"` // the deprecated process-global curve (tss.SetCurve) is set to the curve this protocol does NOT use
-	ShortSSID        bool  `json:",omitempty"` // dealer keys, signing / resharing: search the dealer seed for a session id with a leading zero byte
-	GenPre           []int `json:",omitempty"` // ECDSA keygen / resharing: sorted (new-committee) indices whose party gets no pre-parameters: the library generates them
+	Keys             []H    `json:",omitempty"` // keygen: party keys (drawn order)
+	Members          []int  `json:",omitempty"` // signing: signers; resharing: participating old members (party indices, drawn order)
+	Msg              H      `json:",omitempty"`
+	NewKeys          []H    `json:",omitempty"` // resharing: new committee party keys
+	NewT             int    `json:",omitempty"`
+	Proofs           bool   `json:",omitempty"` // ECDSA resharing: mod/fac proofs on (production path)
+	BadXi            []int  `json:",omitempty"` // positions in Members whose party runs with a wrong secret share (Xi+1)
+	WeakPre          []int  `json:",omitempty"` // ECDSA keygen / resharing: sorted party indices (new-committee indices) that bring under-sized parameters
+	WeakBits         int    `json:",omitempty"`
+	ProofMode        string `json:",omitempty"` // ECDSA keygen / resharing: "" (keygen: both on; resharing: as Proofs says), "mod" or "fac": only that proof is on
+	IDStyle          string `json:",omitempty"` // "", "blank", "shared": the free-form id strings of the parties (must not matter)
+	OtherGlobalCurve bool   `json:",omitempty"` // the deprecated process-global curve (tss.SetCurve) is set to the curve this protocol does NOT use
+	ShortSSID        bool   `json:",omitempty"` // dealer keys, signing / resharing: search the dealer seed for a session id with a leading zero byte
+	GenPre           []int  `json:",omitempty"` // ECDSA keygen / resharing: sorted (new-committee) indices whose party gets no pre-parameters: the library generates them
 }
 
 func (p protoRun) edd() bool { return p.Proto[:5] == "eddsa" }
+
+// noProof: is the named proof ("mod" / "fac") switched off in this ECDSA resharing?
+func (p protoRun) noProof(which string) bool {
+	if p.ProofMode != "" {
+		return p.ProofMode != which
+	}
+	return !p.Proofs
+}
 
 func (p protoRun) String() string {
 	if p.OtherGlobalCurve {
 		q := p
 		q.OtherGlobalCurve = false
 		return q.String() + " global-curve=other"
+	}
+	if p.IDStyle != "" {
+		q := p
+		q.IDStyle = ""
+		return q.String() + " id-strings=" + p.IDStyle
+	}
+	if p.ProofMode != "" {
+		q := p
+		q.ProofMode = ""
+		return q.String() + " only-proof=" + p.ProofMode
 	}
 	if p.ShortSSID {
 		q := p
@@ -78,33 +99,29 @@ func (p protoRun) String() string {
 }
 
 func deepCopyEC(k eckeygen.LocalPartySaveData) eckeygen.LocalPartySaveData {
-	bz, err := json.Marshal(k)
-	if err != nil {
-		panic(err)
-	}
+	bz := jsonOf(k)
 	var out eckeygen.LocalPartySaveData
 	if err := json.Unmarshal(bz, &out); err != nil {
-		panic(err)
+		panic(ev.Raised{Sig: "deserialise", Msg: fmt.Sprintf("key data does not load back from its own JSON: %v", err)})
 	}
 	return out
 }
 
 func deepCopyED(k edkeygen.LocalPartySaveData) edkeygen.LocalPartySaveData {
-	bz, err := json.Marshal(k)
-	if err != nil {
-		panic(err)
-	}
+	bz := jsonOf(k)
 	var out edkeygen.LocalPartySaveData
 	if err := json.Unmarshal(bz, &out); err != nil {
-		panic(err)
+		panic(ev.Raised{Sig: "deserialise", Msg: fmt.Sprintf("key data does not load back from its own JSON: %v", err)})
 	}
 	return out
 }
 
+// jsonOf serialises key data (or any value) the way an application stores it. Key data that cannot be
+// serialised is a violation of whatever property the case belongs to (C20 states it; the others rely on it).
 func jsonOf(v interface{}) []byte {
 	bz, err := json.Marshal(v)
 	if err != nil {
-		panic(err)
+		panic(ev.Raised{Sig: "serialise", Msg: fmt.Sprintf("json.Marshal of %T failed: %v", v, err)})
 	}
 	return bz
 }
@@ -204,6 +221,7 @@ func (p protoRun) withShortSSID() protoRun {
 }
 
 func (p protoRun) build() *runCtx {
+	sim.IDStyle = p.IDStyle
 	// protocols take their curve from the parameters; the process-global default must not matter
 	if p.edd() != p.OtherGlobalCurve {
 		tss.SetCurve(tss.Edwards())
@@ -221,6 +239,9 @@ func (p protoRun) build() *runCtx {
 	switch p.Proto {
 	case "ecdsa-keygen", "eddsa-keygen":
 		cfg := sim.KeygenCfg{EdDSA: p.edd(), Keys: bigs(p.Keys), T: p.Key.T}
+		if !p.edd() && p.ProofMode != "" {
+			cfg.NoProofMod, cfg.NoProofFac = p.ProofMode != "mod", p.ProofMode != "fac"
+		}
 		if !p.edd() {
 			x.pre = append([]eckeygen.LocalPreParams{}, preParams()[:len(p.Keys)]...)
 			for _, w := range p.WeakPre {
@@ -304,7 +325,7 @@ func (p protoRun) build() *runCtx {
 		}
 		var kidx []int
 		x.net, x.ids, x.newIDs, kidx = sim.NewResharing(sim.ReshareCfg{OldEC: keys, OldT: p.Key.T, NewKeys: bigs(p.NewKeys), NewT: p.NewT,
-			NewPre: x.pre, NoProofMod: !p.Proofs, NoProofFac: !p.Proofs})
+			NewPre: x.pre, NoProofMod: p.noProof("mod"), NoProofFac: p.noProof("fac")})
 		x.pubX, x.pubY = data[0].ECDSAPub.X(), data[0].ECDSAPub.Y()
 		x.nOld = len(keys)
 		x.secrets = make([][][]byte, len(x.net.Nodes))
@@ -547,7 +568,11 @@ func genProtoRun(t *rapid.T, protos []string) protoRun {
 		p.NewKeys, p.NewT = genNewCommittee(t, edd, old, maxN)
 		p.Proofs = !edd && rapid.Bool().Draw(t, "proofs")
 	}
+	if p.Proto == "ecdsa-resharing" || p.Proto == "ecdsa-keygen" { // the two proofs can be switched independently
+		p.ProofMode = rapid.SampledFrom([]string{"", "", "", "mod", "fac"}).Draw(t, "proofMode")
+	}
 	p.OtherGlobalCurve = rapid.IntRange(0, 2).Draw(t, "otherGlobalCurve") == 0
+	p.IDStyle = rapid.SampledFrom([]string{"", "", "", "blank", "shared"}).Draw(t, "idStyle")
 	if p.Key.Src == "dealer" && p.Proto != "ecdsa-keygen" && p.Proto != "eddsa-keygen" && p.Proto != "eddsa-resharing" {
 		p.ShortSSID = rapid.IntRange(0, 3).Draw(t, "shortssid") == 0
 	}
